@@ -1,1 +1,67 @@
-/- C16 — property theorems (to be written) -/
+/-
+  C16 — traces are well-formed: one sorted, correctly addressed row per traced event.
+  Property theorems only; helper lemmas live in FtProofs/Lemmas/Trace*.lean.
+-/
+import FtProofs.Lemmas.TraceMachine
+namespace Ft
+open Ft.C16
+
+/-! ### the Metrics class: buffering is unobservable, memory = file, one row per traced access -/
+
+/-- The lines of a trace (written + still buffered) do not depend on `num_cached_uses`, for every
+    sequence of calls that does not restart / re-declare a trace that already has lines. -/
+theorem trace_flush_independent (evs : List Ev) (n m : Nat) (k : Key)
+    (hr : (run (init n) evs).restarted = false) :
+    C16.content (run (init n) evs) k = C16.content (run (init m) evs) k :=
+  ((Sim.init n m).run_sim evs).cont hr k
+
+/-- … and once `endCollect` has run, the files themselves coincide. -/
+theorem trace_files_flush_independent (evs : List Ev) (n m : Nat) (k : Key)
+    (hr : (run (init n) evs).restarted = false)
+    (hd : k ∈ (run (init n) evs).declared) (hf : fileOn (run (init n) evs) k = true) :
+    (run (init n) (evs ++ [.endCollect])).disk k = (run (init m) (evs ++ [.endCollect])).disk k := by
+  have hs := (Sim.init n m).run_sim evs
+  have hd' : k ∈ (run (init m) evs).declared := hs.declared ▸ hd
+  have hf' : fileOn (run (init m) evs) k = true := by
+    have := hs.slots k
+    unfold fileOn at hf ⊢
+    cases h1 : (run (init n) evs).slots k <;> cases h2 : (run (init m) evs).slots k <;>
+      simp_all [SlotSim]
+  simp only [run, List.foldl_append, List.foldl_cons, List.foldl_nil, step]
+  have e1 := endCollect_disk (run (init n) evs) k hd hf
+  have e2 := endCollect_disk (run (init m) evs) k hd' hf'
+  simp only [run] at e1 e2
+  rw [e1, e2]
+  exact congrArg some (hs.cont hr k)
+
+/-- A trace kept both as a file and as a consumable trace delivers the same lines in memory
+    (consumed so far + still held) as in the file (written + buffered). -/
+theorem trace_mem_eq_file (evs : List Ev) (n : Nat) (k : Key)
+    (hr : (run (init n) evs).restarted = false)
+    (hf : fileOn (run (init n) evs) k = true) (hm : memOn (run (init n) evs) k = true) :
+    C16.content (run (init n) evs) k = memAll (run (init n) evs) k :=
+  ((MF.init n).run_mf evs) hr k hf hm
+
+/-- `addUse` adds exactly one row — `iteration[:i+1] + point[:i] + [coord] + [pos]` — to the trace
+    of its (rank, type) when that trace is declared and the rank is known, and nothing to any other
+    trace. -/
+theorem trace_use_one_row (s : MState) (r : String) (c pos : Int) (ty : String) (ovr : Option (List Nat))
+    (k' : Key) :
+    C16.content (addUse s r c pos ty ovr) k' =
+      C16.content s k' ++ (if k' = (r, ty) ∧ fileOn s k' then (useLine s r c pos ovr).toList else []) ∧
+    memAll (addUse s r c pos ty ovr) k' =
+      memAll s k' ++ (if k' = (r, ty) ∧ memOn s k' then (useLine s r c pos ovr).toList else []) :=
+  ⟨(addUse_lines s r c pos ty ovr k').1, (addUse_lines s r c pos ty ovr k').2.1⟩
+
+-- non-vacuity: a run that flushes at 2 but not at 1000, same content
+example :
+    let evs : List Ev := [.trace "K" "iter" false, .trace "K" "iter" true, .reg "K",
+      .use "K" 4 0 "iter" none, .inc "K", .use "K" 7 1 "iter" none, .inc "K", .endI "K"]
+    (run (init 2) evs).restarted = false ∧
+    (run (init 2) evs).disk ("K", "iter") ≠ (run (init 1000) evs).disk ("K", "iter") ∧
+    C16.content (run (init 2) evs) ("K", "iter") =
+      [.hdr ["K_pos", "K", "fiber_pos"], .dat [0, 4, 0], .dat [1, 7, 1]] ∧
+    fileOn (run (init 2) evs) ("K", "iter") = true ∧ memOn (run (init 2) evs) ("K", "iter") = true := by
+  decide
+
+end Ft
